@@ -2,7 +2,7 @@
 import ast
 
 from .. import util
-from ..interp import Interp, Path, exc_value, is_exc, show, strip_sites, subterms, NONE
+from ..interp import Interp, Path, exc_value, is_exc, show, strip_sites, subterms, NONE, iteration_layers
 from ..report import Undecided
 from . import c04, c19
 
@@ -226,11 +226,7 @@ def linking_loop(chk):
                     chk.undecided(rule, name, "loop target is not (index, item)", node=fi.node)
                     return
                 src = strip_sites(items[0][1][1])
-                layers = []
-                s = src
-                while s[0] == "call" and s[1][0] == "glob" and s[1][1].startswith("ext:builtins.") and len(s[2]) == 1:
-                    layers.append(s[1][1].split(".")[-1])
-                    s = s[2][0]
+                layers, s = iteration_layers(src)
                 core = [x for x in layers if x in ("reversed", "enumerate")]
                 if core == ["enumerate", "reversed"]:
                     chk.bad(rule, name, "the pipeline is reversed before it is enumerated: error locations carry indices counted from the end", node=fi.node, stmt="enumerate-after-reverse")
@@ -311,8 +307,7 @@ def linking_loop(chk):
                     acc_prev = acc
                 # result re-reversed
                 r = strip_sites(o.value)
-                inner = r[2][0] if r[0] == "call" and r[1] == ("glob", "ext:builtins.list") and len(r[2]) == 1 else r
-                rev = inner[0] == "call" and inner[1] == ("glob", "ext:builtins.reversed") or (inner[0] == "sub" and inner[2] == ("slice", NONE, NONE, ("const", -1)))
+                rev = iteration_layers(r)[0].count("reversed") % 2 == 1
                 if not rev:
                     chk.bad(rule, name, "the collected objects are returned in construction order (last to first) instead of configuration order", node=fi.node, stmt="not-re-reversed")
                     ok = False
@@ -395,4 +390,5 @@ def run(chk):
     chk.guard("O5.4", "<config modules>", narrow_try, chk)
     # O5.5 / O5.6: the legacy constructor and the templates hand the configured arguments through unchanged
     chk.guard("O19.5", "Translator.construct", c19.construct_rules, chk)
+    chk.guard("O19.1", c19.TRANSLATOR, c19.structure_rules, chk)
     chk.guard("O4.1", util.PARTIAL, c04.partial_core, chk)
